@@ -18,6 +18,8 @@ import (
 // ---------- C05: WKT text is a faithful, re-parseable rendering ----------
 
 type C05Case struct {
+	// RawHex: when set the case is a raw text (native fuzzing / replay): parse-print-parse fixpoint only.
+	RawHex   string        `json:"raw_hex,omitempty"`
 	G        gm.G          `json:"g"`
 	Prefix   string        `json:"prefix"` // hex
 	Respell  codec.Respell `json:"respell"`
@@ -53,6 +55,11 @@ func c05HasDepthEmpty(g gm.G) bool {
 }
 
 func c05Check(c C05Case, cx *h.Ctx) *h.Failure {
+	if c.RawHex != "" {
+		b, _ := hex.DecodeString(c.RawHex)
+		cx.Class("raw-text")
+		return c05Raw(string(b))
+	}
 	if c.Reject != "" {
 		cx.Class("reject-text")
 		if g, err := geom.UnmarshalWKT(c.Reject, geom.NoValidate{}); err == nil {
